@@ -16,6 +16,7 @@ EXTENDS Integers, Sequences, FiniteSets, TLC
 
 CONSTANTS Behaviors,  \* extra behaviors, e.g. {"A","B"}
           MaxOps,     \* max number of switch calls made while handling one message
+          MaxRestarts,\* how often PID.Restart may be called from outside (0 = never)
           Defects     \* {} = repaired design; "UnBecomePushes" = resetBehavior only pushes Receive
 
 VARIABLES stack,      \* implementation: linked nodes, top first
@@ -23,10 +24,11 @@ VARIABLES stack,      \* implementation: linked nodes, top first
           ideal,      \* documented stack, top first
           cur,        \* behavior handling the current message ("none": nothing is being handled)
           nops,       \* switch calls made so far by the current handler
+          nres,       \* restarts so far
           last        \* output only: last step and what was observable
 
-vars == <<stack, len, ideal, cur, nops, last>>
-core == <<stack, len, ideal, cur, nops>>
+vars == <<stack, len, ideal, cur, nops, nres, last>>
+core == <<stack, len, ideal, cur, nops, nres>>
 
 Default == "D"
 All     == Behaviors \cup {Default}
@@ -36,7 +38,7 @@ Init == /\ stack = <<Default>>          \* newPID: newBehaviorStack(); Push(acto
         /\ len = 1
         /\ ideal = <<Default>>
         /\ cur = "none"
-        /\ nops = 0
+        /\ nops = 0 /\ nres = 0
         /\ last = [op |-> "Init", b |-> "", h |-> "none"]
 
 \* ---- behavior_stack.go --------------------------------------------------------
@@ -50,7 +52,18 @@ Deliver ==
   /\ cur' = Top(stack)
   /\ nops' = 0
   /\ last' = [op |-> "Deliver", b |-> "", h |-> Top(stack)]
-  /\ UNCHANGED <<stack, len, ideal>>
+  /\ UNCHANGED <<stack, len, ideal, nres>>
+
+\* ---- PID.Restart called from outside between two messages (restartSubtree): the running
+\* actor is shut down (reset(): behaviorStack.Reset()), then resetBehavior(), init(), PostStart;
+\* a restarted actor starts again with its default behavior only
+Restart ==
+  /\ nres < MaxRestarts
+  /\ nres' = nres + 1
+  /\ stack' = <<Default>> /\ len' = 1       \* Reset() in reset(), then Push(actor.Receive) (with either resetBehavior)
+  /\ ideal' = <<Default>>
+  /\ cur' = "none" /\ nops' = 0
+  /\ last' = [op |-> "Restart", b |-> "", h |-> "none"]
 
 InHandler == cur # "none" /\ nops < MaxOps
 
@@ -61,7 +74,7 @@ Become(b) ==
   /\ ideal' = <<b>>
   /\ nops' = nops + 1
   /\ last' = [op |-> "Become", b |-> b, h |-> cur]
-  /\ UNCHANGED cur
+  /\ UNCHANGED <<cur, nres>>
 
 \* ---- setBehaviorStacked: Push(b)
 BecomeStacked(b) ==
@@ -70,7 +83,7 @@ BecomeStacked(b) ==
   /\ ideal' = Push(ideal, b)
   /\ nops' = nops + 1
   /\ last' = [op |-> "BecomeStacked", b |-> b, h |-> cur]
-  /\ UNCHANGED cur
+  /\ UNCHANGED <<cur, nres>>
 
 \* ---- unsetBehaviorStacked: Pop()
 UnBecomeStacked ==
@@ -79,7 +92,7 @@ UnBecomeStacked ==
   /\ ideal' = Pop(ideal)
   /\ nops' = nops + 1
   /\ last' = [op |-> "UnBecomeStacked", b |-> "", h |-> cur]
-  /\ UNCHANGED cur
+  /\ UNCHANGED <<cur, nres>>
 
 \* ---- resetBehavior
 UnBecome ==
@@ -90,12 +103,13 @@ UnBecome ==
   /\ ideal' = <<Default>>
   /\ nops' = nops + 1
   /\ last' = [op |-> "UnBecome", b |-> "", h |-> cur]
-  /\ UNCHANGED cur
+  /\ UNCHANGED <<cur, nres>>
 
 Next == \/ Deliver
         \/ \E b \in Behaviors : Become(b) \/ BecomeStacked(b)
         \/ UnBecomeStacked
         \/ UnBecome
+        \/ Restart
 
 Spec == Init /\ [][Next]_vars
 
@@ -105,7 +119,9 @@ HandlerIsIdealTop == [][last'.op = "Deliver" => last'.h = Top(ideal)]_vars
 \* stronger, state-based: the implementation stack IS the documented stack
 Refines == stack = ideal
 \* the message being handled finishes under the behavior that started it
-FinishesUnderStarter == [][last'.op # "Deliver" => (cur' = cur /\ last'.h = cur)]_vars
+FinishesUnderStarter == [][last'.op \notin {"Deliver", "Restart"} => (cur' = cur /\ last'.h = cur)]_vars
+\* a restarted actor handles its next message with the default behavior
+RestartRestoresDefault == [][last'.op = "Restart" => Top(stack') = Default]_vars
 \* the separate length counter is the number of linked nodes
 WellFormed == len = Len(stack)
 \* the default behavior is never lost while something is stacked on it ... unless popped explicitly
